@@ -1,4 +1,4 @@
-import QbiceVerif.Lemmas.WriteBehindProgress
+import QbiceVerif.Lemmas.WriteBehindNotify
 
 /-!
 # C10 — write-behind applies every batch exactly once, in order, by shutdown
@@ -175,6 +175,18 @@ theorem shutdown_terminates (hr : Reachable nSer s) :
   have h := reachable_allInv s hr
   exact ⟨fun ev s' hst hu => mu_decreases h.d (step_sound hst) hu,
     fun hc h1 h2 => shutdown_no_deadlock h hc h1 h2⟩
+
+/-- "shutting-down flag: skip cache notifications, still commit everything": every applied batch is
+handed to the after-commit stage exactly once — its epoch is in exactly one of `notified` (caches
+told), `deactivated` (skipped because of shutdown), the after-commit channel, or the rest of the
+running after-commit loop — whatever the moment at which the flag flips; after the drop returned
+each applied batch was either notified or deactivated, exactly once.  (None of the other theorems
+depends on the flag: commits are unaffected by it.) -/
+theorem after_commit_exactly_once (hr : Reachable nSer s) :
+    (s.notified ++ s.deactivated ++ s.afterQ.map Task.epoch ++ s.cpc.notifyList.map Task.epoch).Perm
+      (s.applied.map Task.epoch) ∧
+    (s.dpc = .returned → (s.notified ++ s.deactivated).Perm (s.applied.map Task.epoch)) :=
+  ⟨reachable_notifyInv s hr, fun hd => returned_notify hr hd⟩
 
 /-! ## Non-vacuity -/
 
